@@ -191,6 +191,32 @@ func fidelityScripts(t *fidelityTrace) {
 	t.add("WriteFile missing dir: %s", errClass(vos.WriteFile("/f/none/x", nil, 0644)))
 	_, err = vos.ReadFile("/f/none")
 	t.add("ReadFile missing: %s", errClass(err))
+	// 7. directory listings (ReadDir, Glob, WalkDir)
+	vos.MkdirAll("/f/ls/sub", 0755)
+	vos.WriteFile("/f/ls/b.tmp", []byte("b"), 0644)
+	vos.WriteFile("/f/ls/a.1.tmp", []byte("aa"), 0644)
+	vos.WriteFile("/f/ls/sub/c.tmp", nil, 0644)
+	ents, err := vos.ReadDir("/f/ls")
+	var names []string
+	for _, e := range ents {
+		names = append(names, fmt.Sprintf("%s/%v", e.Name(), e.IsDir()))
+	}
+	t.add("ReadDir: %v %s", names, errClass(err))
+	_, err = vos.ReadDir("/f/ls/none")
+	t.add("ReadDir missing: %s", errClass(err))
+	ms, err := vos.Glob("/f/ls/*.tmp")
+	t.add("Glob: %v %s", ms, errClass(err))
+	ms, err = vos.Glob("/f/ls/a.*.tmp")
+	t.add("Glob 2: %v %s", ms, errClass(err))
+	ms, err = vos.Glob("/f/ls/zz*")
+	t.add("Glob none: %v %s", ms, errClass(err))
+	var walked []string
+	err = vos.WalkDir("/f/ls", func(path string, d vos.DirEntry, err error) error {
+		walked = append(walked, fmt.Sprintf("%s/%v", path, d != nil && d.IsDir()))
+		return nil
+	})
+	t.add("WalkDir: %v %s", walked, errClass(err))
+	vos.RemoveAll("/f/ls")
 }
 
 // fidelityImage lists the files under root with their contents (temp-dir
